@@ -36,9 +36,30 @@ SERVES = {'resolve': ['C08', 'C07', 'C03', 'C17'], 'same-op': ['C08', 'C07', 'C0
           'safe': ['C08'], 'filed-under-own-name': ['C09', 'C15']}
 
 
+OBSERVABLE = ('name', 'contents', 'volume', 'max_volume', 'wells', 'experimental_conditions')
+
+
 class Event:
     def __init__(self, kind_, args, kwargs, outputs, lineno):
         self.kind, self.args, self.kwargs, self.outputs, self.lineno = kind_, args, kwargs, outputs, lineno
+        # what the direct operation handed back (identity of every observable field of its results): bake must file these
+        # very objects, not edited versions of them
+        self.snap = [{k: o.fields.get(k) for k in OBSERVABLE if isinstance(o, Obj)} for o in
+                     (outputs if isinstance(outputs, (tuple, list)) else (outputs,))]
+
+    def edited(self):
+        out = []
+        outs = self.outputs if isinstance(self.outputs, (tuple, list)) else (self.outputs,)
+        for o, snap in zip(outs, self.snap):
+            if not isinstance(o, Obj):
+                continue
+            for k, v in snap.items():
+                cur = o.fields.get(k)
+                if cur is v or (z3.is_expr(cur) and z3.is_expr(v) and cur.eq(v)):
+                    continue
+                if z3.is_expr(cur) or z3.is_expr(v) or isinstance(cur, (Obj, dict)) or type(cur) is not type(v) or cur != v:
+                    out.append(f"{o.tag or o.cls.name}.{k} was changed after the {self.kind} operation returned it")
+        return out
 
 
 def abstract_container(I, name, tag, fresh_=True):
@@ -47,6 +68,7 @@ def abstract_container(I, name, tag, fresh_=True):
     m.owner = o
     o.fields.update(name=name, contents=m, volume=fresh('vol', RS), max_volume=fresh('cap', RS),
                     instructions=SegStr([OpaqueHole('instructions')]), experimental_conditions={})
+    clib.init_defaults(I, o)
     return o
 
 
@@ -390,6 +412,8 @@ def run_step(pid, kind_):
         I.obls = [ob for ob in I.obls if ob.kind != 'property' or serves(ob.name, pid)]
         res += vc.discharge(I, 'Recipe.bake/', case, 10000, replay_fn=lambda mv, ob: replay_for(kind_, ob.name))
     res = clib.dedupe(res)
+    clause = {'C04': 'frame', 'C09': 'substances-used trash', 'C15': 'snapshots objects-used', 'C17': 'resolve trash'}.get(pid, 'resolve')
+    res = clib.native_fallback(res, f'Recipe.bake/{clause.split()[0]}', case, replay_for(kind_, clause + ' objects-used'))
     return [dict(x, name=f'{pid}/' + x['name']) for x in res]
 
 
@@ -499,6 +523,8 @@ def judge(I, cx, exp, step, evs, known_before):
     new_keys = [kt for kt, v in st.results.known[known_before:]]
     extra = [str(kt) for kt in new_keys if not any(kt.eq(n) for n in names.values())]
     I.oblige('store', stored_ok and not extra, 'property', note='; '.join(notes[:3]) + (f' extra names stored: {extra}' if extra else ''))
+    edits = [x for m in evs for x in m.edited()]
+    I.oblige('store[results-unedited]', not edits, 'property', note='; '.join(edits[:3]))
     # ---- the trackers find the objects of a step by NAME (step.to[0].name == container.name ...): every object filed in
     # results must carry the name it is filed under, or later steps on it become invisible to them
     misfiled = []
